@@ -217,7 +217,7 @@ func New(opts Options) (*Vaxis, error) {
 	vx.chClipboard = make(chan string)
 	vx.chSigWinSz = make(chan os.Signal, 1)
 	vx.chSigKill = make(chan os.Signal, 1)
-	vx.chCursorPos = make(chan [2]int)
+	vx.chCursorPos = make(chan [2]int, 1)
 	vx.chQuit = make(chan bool)
 	vx.chSizeDone = make(chan bool, 1)
 	vx.charCache = make(map[string]int, 256)
@@ -830,9 +830,14 @@ func (vx *Vaxis) handleSequence(seq ansi.Sequence) {
 					log.Error("not enough DSRCPR params")
 					return
 				}
-				vx.chCursorPos <- [2]int{
+				// Never block the input loop: the requester may
+				// have timed out already
+				select {
+				case vx.chCursorPos <- [2]int{
 					seq.Parameters[0][0],
 					seq.Parameters[1][0],
+				}:
+				default:
 				}
 				return
 			}
@@ -973,7 +978,12 @@ func (vx *Vaxis) handleSequence(seq ansi.Sequence) {
 					vx.PostEventBlocking(textAreaChar{})
 					return
 				}
-				vx.chSizeDone <- true
+				// Never block the input loop on a report nobody
+				// is waiting for
+				select {
+				case vx.chSizeDone <- true:
+				default:
+				}
 			case 48:
 				// CSI <type> ; <height> ; <width> ; <height_pix> ; <width_pix> t
 				switch len(seq.Parameters) {
@@ -1075,21 +1085,21 @@ func (vx *Vaxis) handleSequence(seq ansi.Sequence) {
 			// content. In this case, we don't want to fill the channel buffer
 			// as no one will clear it.
 			if vx.CanReportColor() {
-				vx.chColor <- string(seq.Payload)
+				offerReply(vx.chColor, string(seq.Payload))
 			}
 			vx.PostEventBlocking(capabilityOsc4{})
 		}
 		if strings.HasPrefix(string(seq.Payload), "10") {
 			// Similar to OSC 4
 			if vx.CanReportForegroundColor() {
-				vx.chFg <- string(seq.Payload)
+				offerReply(vx.chFg, string(seq.Payload))
 			}
 			vx.PostEventBlocking(capabilityOsc10{})
 		}
 		if strings.HasPrefix(string(seq.Payload), "11") {
 			// Similar to OSC 4
 			if vx.CanReportBackgroundColor() {
-				vx.chBg <- string(seq.Payload)
+				offerReply(vx.chBg, string(seq.Payload))
 			}
 			vx.PostEventBlocking(capabilityOsc11{})
 		}
@@ -1119,6 +1129,20 @@ func (vx *Vaxis) handleSequence(seq ansi.Sequence) {
 			}
 			vx.PostEvent(appID(vals[1]))
 		}
+	}
+}
+
+// offerReply hands a reply to whoever is (or will next be) waiting for it
+// without ever blocking the input loop: a reply nobody has collected yet is
+// replaced by the newer one
+func offerReply(ch chan string, reply string) {
+	select {
+	case <-ch:
+	default:
+	}
+	select {
+	case ch <- reply:
+	default:
 	}
 }
 
@@ -1507,6 +1531,11 @@ func (vx *Vaxis) showCursor() string {
 // -1,-1 if the query times out or fails
 func (vx *Vaxis) CursorPosition() (row int, col int) {
 	// DSRCPR - reports cursor position
+	// drop a report left over from a request which timed out
+	select {
+	case <-vx.chCursorPos:
+	default:
+	}
 	atomicStore(&vx.reqCursorPos, true)
 	_, _ = io.WriteString(vx.console, dsrcpr)
 	timeout := time.NewTimer(50 * time.Millisecond)
